@@ -85,7 +85,8 @@ def check(prop, tier, seed):
     for i in range(40 if quick else 1500):
         scns.append(dict(id="stress-%d" % i, kind="stress", role=rnd.choice(["acceptor", "initiator"]), n=rnd.choice([2, 4, 8, 16]),
                          perSender=rnd.choice([3, 10, 30]), hb=rnd.choice([1, 2]), seed=rnd.randint(1, 10**6),
-                         startSeq=rnd.choice([0, 0, 7]), buf=rnd.choice([0, 1, 10]), replyAt=-1, **{"yield": rnd.choice([0, 3, 10, 30])}))
+                         startSeq=rnd.choice([0, 0, 7]), buf=rnd.choice([0, 1, 10]), replyAt=-1, reuse=(i % 3 == 2),
+                         **{"yield": rnd.choice([0, 3, 10, 30])}))
     traces = []
     # GOMAXPROCS settings: the pool is split over them
     for gi, gm in enumerate((["1", "4", "16"] if quick else ["1", "2", "4", "16"])):
@@ -93,6 +94,9 @@ def check(prop, tier, seed):
         traces += sc.run_driver(run, binp, part, "sp-gomax%s" % gm, testname="TestSendPath", extra_env={"GOMAXPROCS": gm})
     run.traces = len(scns)
     rejects = sc.validate(run, traces, module="WireTrace", mods=["WireTrace.tla"])
+    # the whole library end to end over TCP: the byte stream each side really wrote, under bursts and transport back-pressure
+    import stack_checks
+    rejects += stack_checks.check(run, quick, seed)
     viol, kn = classify(prop, [r for r in rejects if r[0] == prop])
     run.add_known(kn)
     seen = set()
@@ -100,7 +104,7 @@ def check(prop, tier, seed):
         if (r[2], r[3].get("kind"), r[3].get("gate")) in seen or len(run.violations) >= 10:
             continue
         seen.add((r[2], r[3].get("kind"), r[3].get("gate")))
-        run.violation(r, {"property": prop, "kind": "sendpath", "reject": r, "scenario": sc.find_scenario(scns, r[1])})
+        run.violation(r, stack_checks.replay_obj(prop, r) or {"property": prop, "kind": "sendpath", "reject": r, "scenario": sc.find_scenario(scns, r[1])})
     if len(viol) > len(run.violations):
         run.notes.append("%d rejected executions in total" % len(viol))
     run.samples = scns[:2] + scns[ngate:ngate + 2]
@@ -108,7 +112,7 @@ def check(prop, tier, seed):
     run.extra["stress_runs"] = len(scns) - ngate
     run.assumptions = ["gates are in application-provided code only (CounterStorage, MessageStorage, outgoing handler, the message's ToBytes); arbitrary delays there are the property's 'arbitrary delays inside the application's stores and handlers'",
                        "gate schedules run in real time with bounded waits (a sender that cannot reach the gate within 30 ms is treated as blocked by a lock: the schedule is infeasible on this code, which can only lose a schedule, never raise an alarm)",
-                       "the verdict is taken from the wire only"]
+                       "the verdict is taken from the wire only", stack_checks.ASSUMPTION]
     return run.finish("execution = (gate, number of senders, release order) for all permutations at 4 gates, both roles, several buffer sizes and "
                       "stored counters, plus seeded free-running stress runs (2..16 senders, inbound replies/rejects, both timers expiring) in virtual "
                       "time under GOMAXPROCS 1/4/16; each execution's wire is one trace record validated by WireTrace; distinct by scenario parameters")
